@@ -10,6 +10,7 @@ import (
 	"verif/checks/c01"
 	"verif/checks/c02"
 	"verif/checks/c03"
+	"verif/checks/c04"
 	"verif/checks/c09"
 	"verif/checks/c10"
 	"verif/checks/c11"
@@ -45,6 +46,7 @@ var checks = map[string]check{
 	"C18": {"model_checking", c18.Run},
 	"C19": {"model_checking", c19.Run},
 	"C03": {"model_checking", c03.Run},
+	"C04": {"exploration", c04.Run},
 	"C05": {"model_checking", ccrypto.RunC05},
 	"C06": {"model_checking", ccrypto.RunC06},
 	"C07": {"model_checking", ccrypto.RunC07},
